@@ -115,6 +115,7 @@ HASHES = {
     "sha256": lambda d: hashlib.sha256(d).digest(),
     "md5list": lambda d: list(hashlib.md5(d).digest()[:4]),
     "sha1padded": lambda d: hashlib.sha1(d).digest(), "crc32aligned": lambda d: zlib.crc32(d) & 0xFFFFFFFF,
+    "crc32hex": lambda d: "%08x" % (zlib.crc32(d) & 0xFFFFFFFF), "md5HEX": lambda d: hashlib.md5(d).hexdigest().upper()[:12],
 }
 
 
@@ -198,6 +199,8 @@ def mk(r):
     if k == "LazyStruct":
         return C.LazyStruct(*_members(a[0]))
     if k == "AlignedStruct":
+        if len(a) > 2:                   # [modulus, members, npos]: the first npos members positionally, the others as keywords
+            return C.AlignedStruct(mkexpr(a[0]), *_members(a[1][:a[2]]), **{n: mk(m) for n, m in a[1][a[2]:]})
         return C.AlignedStruct(mkexpr(a[0]), *_members(a[1]))
     if k == "BitStruct":
         return C.BitStruct(*_members(a[0]))
